@@ -716,3 +716,36 @@ fn respond_notify() {
     std::mem::forget(res);
     std::mem::forget(conn);
 }
+
+/// @tier thorough
+/// @fn rpki::rtr::server::Connection::error rpki::rtr::pdu::Error::write
+/// @bounds an Error PDU built from arbitrary version, code and 8 arbitrary
+///   encapsulated header bytes with the text "invalid length"; in-memory
+///   sink; unwind 3
+/// @says the answer to a malformed query is written as exactly the octets
+///   of the Error PDU, once, and nothing else
+/// @out when it is written relative to notifications (interleaving)
+#[kani::proof]
+#[kani::unwind(3)]
+fn respond_error() {
+    let hdr: [u8; 8] = kani::any();
+    let v: u8 = kani::any();
+    let code: u16 = kani::any();
+    let e = pdu::Error::new(v, code, hdr, "invalid length");
+    let sock = Sock::<1, 48>::new([0], 0, false, 0);
+    let mut conn = Conn::new(sock, dummy_src());
+    let res = block_on(conn.error(e), 1);
+    assert!(matches!(res, Some(Ok(()))));
+    let out = &conn.sock().out;
+    let n = conn.sock().out_len;
+    assert!(n == 16 + 8 + 14);
+    assert!(out[0] == v && out[1] == 10 && be16(out, 2) == code);
+    assert!(be32(out, 4) as usize == n);
+    assert!(be32(out, 8) == 8);
+    assert!(be32(out, 12) == be32(&hdr, 0) && be32(out, 16) == be32(&hdr, 4));
+    assert!(be32(out, 20) == 14);
+    assert!(out[24] == b'i' && out[37] == b'h');
+    kani::cover!(code == 3);
+    std::mem::forget(res);
+    std::mem::forget(conn);
+}
